@@ -78,6 +78,7 @@ type Cfg struct {
 	Procs  int   `json:"procs"`  // GOMAXPROCS
 	Cont   []int `json:"cont"`   // callbacks whose "ok" is delivered as `continue`
 	Cancel int   `json:"cancel"` // C19 replays: unused here
+	Settle bool  `json:"settle"` // forced runs: after CbEnd(i) wait until worker i is parked at its release hook
 }
 
 // Step is one gate-able event of a schedule.
@@ -554,6 +555,37 @@ func (r *Run) follow(sched []Step, done <-chan error, watchdog <-chan time.Time)
 		delete(waiting, want)
 		close(a.release)
 		<-a.logged // the goroutine logs at once after its release: the trace has the forced order
+		if r.Cfg.Settle && want.Ev == "CbEnd" && r.Cfg.Bound > 0 {
+			// let the worker run up to its next gate (the release hook) and keep it parked there: whatever
+			// the code does between the return of the callback and the hook has then certainly happened
+			rel := Step{"Release", want.I}
+			for waiting[rel].release == nil {
+				stall := time.NewTimer(StallLimit)
+				select {
+				case <-stall.C:
+					free(fmt.Sprintf("step %d: stalled waiting for worker %d to reach its release hook", k, want.I))
+					return drain()
+				case b := <-r.arrivals:
+					stall.Stop()
+					waiting[b.step] = b
+					if b.step == rel {
+						break
+					}
+					if exp, ok := nextOf(b.step.role(), k+1); !ok || exp != b.step {
+						free(fmt.Sprintf("step %d: %s(%d) arrived, the schedule has %v next for that goroutine", k, b.step.Ev, b.step.I, exp))
+						return drain()
+					}
+				case evalErr = <-done:
+					stall.Stop()
+					returned = true
+					free(fmt.Sprintf("step %d: the evaluation returned before worker %d reached its release hook", k, want.I))
+					return evalErr, nil
+				case <-watchdog:
+					stall.Stop()
+					return nil, fmt.Errorf("replay stuck at step %d (settling worker %d)\n%s", k, want.I, dump())
+				}
+			}
+		}
 	}
 	free("")
 	return drain()
